@@ -2,6 +2,8 @@ package main
 
 import (
 	"fmt"
+	z "github.com/Oudwins/zog"
+	"github.com/Oudwins/zog/conf"
 	zi "github.com/Oudwins/zog/internals"
 	"math/rand"
 	"strings"
@@ -161,10 +163,16 @@ func famPairs(tw *traceWriter, r *rand.Rand, n int) {
 		id := fmt.Sprintf("pair%d", i)
 		cv := &Case{ID: id + "v", Mode: "validate", Fe: "map", Schema: sch, Input: v}
 		cp := &Case{ID: id + "p", Mode: "parse", Fe: "map", Schema: sch, Input: toMapInput(sch, v)}
+		// every other pair runs under an application-wide formatter: both modes, and every entry point, must honour it
+		old := conf.IssueFormatter
+		if i%2 == 1 {
+			conf.IssueFormatter = func(e *z.ZogIssue, c z.Ctx) { e.SetMessage("G:" + e.Code) }
+		}
 		tw.grp = id
 		tw.emitCase(cv, "validate13", false)
 		tw.emitCase(cp, "parse13", false)
 		tw.grp = ""
+		conf.IssueFormatter = old
 	}
 }
 
@@ -487,3 +495,33 @@ func famBadJSON(tw *traceWriter, r *rand.Rand, n int) {
 }
 
 func init() { families["badjson"] = famBadJSON }
+
+// zero-valued items of a typed Go slice are PRESENT values in Parse (0, false): an optional item schema tests them
+func famTypedZero(tw *traceWriter, r *rand.Rand, n int) {
+	i := 0
+	for _, ty := range []string{"int", "float", "bool"} {
+		for _, req := range []bool{false, true} {
+			for _, pos := range []string{"root", "field"} {
+				t := Test{Kind: "gt", N: 0, Code: "gt"}
+				vals := []*Input{val(3), val(0), val(2)}
+				if ty == "bool" {
+					t = Test{Kind: "eq", N: 1, Code: "eq"}
+					vals = []*Input{val(1), val(0), val(1)}
+				}
+				l := list(vals...)
+				l.Rep = "typed"
+				sl := slice(prim(ty, req, None, None, []Test{t}, nil), false, None, nil, nil)
+				var sch *Node = sl
+				var in *Input = l
+				if pos == "field" {
+					sch = strct([]Kid{{Key: "a", Node: sl}}, nil, nil)
+					in = mapIn(Ent{Key: "a", Val: l})
+				}
+				tw.emitCase(&Case{ID: fmt.Sprintf("tz%d", i), Mode: "parse", Fe: "map", Schema: sch, Input: in}, "", true)
+				i++
+			}
+		}
+	}
+}
+
+func init() { families["typedzero"] = famTypedZero }
